@@ -55,11 +55,12 @@ def main():
             return res
         tests = demo_tests(open(demo).read())
         res["demo_tests"] = tests
-        if not tests:
-            res["error"] = "demo.diff adds no <crate>/tests/*.rs file; confirm by hand"
+        override = sys.argv[sys.argv.index("--test-cmd") + 1] if "--test-cmd" in sys.argv else None
+        if not tests and not override:
+            res["error"] = "demo.diff adds no <crate>/tests/*.rs file; confirm with --test-cmd"
             return res
         sh("git apply %s" % demo, wt)
-        cmd = " && ".join("cargo test --offline -p %s --test %s" % (c, t) for c, t in tests)
+        cmd = override or " && ".join("cargo test --offline -p %s --test %s" % (c, t) for c, t in tests)
         rc, out = sh(cmd, wt)
         res["demo_passes_on_unchanged"] = rc == 0
         res["demo_unchanged_tail"] = out[-600:]
